@@ -1,6 +1,7 @@
 """C10 — TestNode.should_rerun / default_run_decision and TestRunner.run_test_node /
 all_results_ok against Model/Retry.v, on real TestNode / TestRunner objects."""
 import asyncio
+import os
 import itertools
 from unittest import mock
 
@@ -140,6 +141,68 @@ def impl_verdict(tests):
     return bool(r.all_results_ok())
 
 
+def impl_replay(jobs, work):
+    """results_from_previous_jobs on real result files: jobs = list of (list of (name id, status id)) | None (no file) |
+    'notests' (file without a tests list); returns the (name id, status id) list or None when it raised"""
+    import json
+    import shutil
+    from avocado_i2n.plugins.runner import TestRunner
+    logs = os.path.join(work, "replay_logs")
+    shutil.rmtree(logs, ignore_errors=True)
+    os.makedirs(logs)
+    names = []
+    for k, j in enumerate(jobs):
+        names.append(f"job{k}")
+        if j is None:
+            continue
+        os.makedirs(os.path.join(logs, f"job{k}"))
+        data = {"other": 1} if j == "notests" else {"tests": [{"name": f"t{n}", "status": WORDS[st].upper(), "id": f"{n}-t{n}"} for n, st in j]}
+        with open(os.path.join(logs, f"job{k}", "results.json"), "w") as f:
+            json.dump(data, f)
+    runner = TestRunner()
+    runner.job = mock.MagicMock()
+    runner.job.config = {"param_dict": {"replay": " ".join(names)}, "datadir.paths.logs_dir": logs}
+    runner.previous_results = []
+    try:
+        runner.results_from_previous_jobs()
+    except Exception:
+        return None
+    return [(int(r["name"][1:]), WORDS.index(r["status"].lower())) for r in runner.previous_results]
+
+
+def replay_part(ctx, replay):
+    rng = ctx.rng
+    if replay and "jobs" in replay.get("data", {}):
+        cases = [[None if j is None else (j if j == "notests" else [tuple(x) for x in j]) for j in replay["data"]["jobs"]]]
+    elif replay:
+        return
+    else:
+        cases = [[], [[(1, 2)]], [[(1, 2)], [(1, 0)]], [[(1, 2), (2, 0)], [(3, 1)], [(1, 1)]], [[(1, 2)], None], [None], [[(1, 0)], "notests"]]
+        for _ in range(120 if ctx.thorough else 40):
+            c = []
+            for _ in range(rng.randint(1, 4)):
+                r = rng.random()
+                c.append(None if r < 0.07 else "notests" if r < 0.12 else
+                         [(rng.randint(1, 5), rng.randrange(len(WORDS))) for _ in range(rng.randint(0, 5))])
+            cases.append(c)
+    outs = [impl_replay(c, ctx.work) for c in cases]
+
+    def jt(j):
+        return "None" if (j is None or j == "notests") else copt(clist([cpair(cN(n), cN(st)) for n, st in j]))
+    terms = [cpair(clist([jt(j) for j in c]), "None" if o is None else copt(clist([cpair(cN(n), cN(st)) for n, st in o])))
+             for c, o in zip(cases, outs)]
+    res = coq_failing(ctx, IMPORTS, "replay_case", terms, ["replay_corr"], shard=200, tag="replay")
+    ctx.obligation("correspondence:results_from_previous_jobs", "correspondence", not res["replay_corr"],
+                   f"{len(res['replay_corr'])} of {len(cases)} replay lists give other previous results than the concatenation of all named jobs")
+    for k in res["replay_corr"][:1]:
+        c, o = cases[k], outs[k]
+        expect = None if any(j is None or j == "notests" for j in c) else [x for j in c for x in j]
+        ctx.fail("C10:replay:previous-results", f"replaying {len(c)} jobs: previous results {o} instead of {expect}",
+                 {"jobs": [j if (j is None or j == "notests") else [list(x) for x in j] for j in c], "impl": o, "expected": expect,
+                  "obligation": "correspondence:results_from_previous_jobs"}, True)
+    ctx.count(len(cases), sum(1 for c in cases if len([j for j in c if isinstance(j, list) and j]) >= 2))
+
+
 def traversal_tie(ctx, replay):
     """the schedule-level theorems (identifiers strictly increase, one entry per execution) are about Model/TraverseRun.v:
     a batch of retry-heavy traversals of the real code is compared with that model section by section (uids included)"""
@@ -182,6 +245,9 @@ def traversal_tie(ctx, replay):
 def run(ctx, replay=None):
     traversal_tie(ctx, replay)
     if replay and "spec" in replay.get("data", {}):
+        return
+    replay_part(ctx, replay)
+    if replay and "jobs" in replay.get("data", {}):
         return
     rng = ctx.rng
     # ---------------- should_rerun
